@@ -662,9 +662,15 @@ CMR_ERROR CMRtuTest(CMR* cmr, CMR_CHRMAT* matrix, bool* pisTotallyUnimodular, CM
 
     double remainingTime = timeLimit - ((clock() - totalClock) * 1.0 / CLOCKS_PER_SEC);
 
+    /* A binary Seymour decomposition works on the support matrix; the signs are covered by the Camion test. */
+    CMR_CHRMAT* support = NULL;
+    if (!params->ternary)
+      CMR_CALL( CMRchrmatSupport(cmr, matrix, &support) );
+
     CMR_SEYMOUR_NODE* root = NULL;
-    CMR_ERROR error = CMRseymourDecompose(cmr, matrix, params->ternary, &root, &(params->seymour),
+    CMR_ERROR error = CMRseymourDecompose(cmr, support ? support : matrix, params->ternary, &root, &(params->seymour),
       stats ? &stats->seymour : NULL, remainingTime);
+    CMR_CALL( CMRchrmatFree(cmr, &support) );
     if (error == CMR_ERROR_TIMEOUT)
     {
       assert( root == NULL);
